@@ -51,7 +51,7 @@ impl GLWEBlindRetriever {
         R: GLWEInfos,
         S: GGSWInfos,
     {
-        module.cmux_tmp_bytes(res, res, selector)
+        module.cmux_assign_neg_tmp_bytes(res, res, selector)
     }
 
     pub fn retrieve<M, R, A, S, BE: Backend>(
